@@ -4,6 +4,7 @@ import (
 	"encoding/hex"
 	"fmt"
 	"reflect"
+	"sync"
 	"testing"
 	"time"
 
@@ -19,6 +20,67 @@ type decodePlan struct {
 	Hex     string `json:"hex"`
 	Origin  string `json:"origin,omitempty"`  // how the input was derived (for the histogram)
 	Remnant string `json:"remnant,omitempty"` // bytes that follow the input in the "reused receive buffer" context
+	// Storm: further inputs (knxnet.Unpack); each of them and Hex is decoded Reps times by its own goroutine, all at once
+	// (every socket has its own receiver goroutine): "the outcome is a function of the input bytes alone"
+	Storm []string `json:"storm,omitempty"`
+	Reps  int      `json:"reps,omitempty"`
+}
+
+// c01Storm: concurrent decodes do not influence each other and do not panic.
+func c01Storm(p decodePlan) *common.Fail {
+	type solo struct {
+		in   []byte
+		ok   bool
+		n    uint
+		val  knxnet.Service
+		show string
+	}
+	var ss []solo
+	for _, h := range append([]string{p.Hex}, p.Storm...) {
+		in, err := hex.DecodeString(h)
+		if err != nil {
+			continue
+		}
+		var v knxnet.Service
+		n, derr := knxnet.Unpack(append([]byte{}, in...), &v)
+		ss = append(ss, solo{in, derr == nil, n, v, common.Show(v)})
+	}
+	fails := make([]*common.Fail, len(ss))
+	var wg sync.WaitGroup
+	start := make(chan struct{})
+	for i := range ss {
+		wg.Add(1)
+		go func(i int) {
+			defer wg.Done()
+			x := ss[i]
+			buf := make([]byte, len(x.in))
+			defer func() {
+				if r := recover(); r != nil {
+					// (the panic value of a data race is not safe to format: only its type is reported)
+					fails[i] = common.Failf("panic", "knxnet.Unpack of %x panics (%T) while %d other goroutines decode their own datagrams; alone it does not", x.in, r, len(ss)-1)
+				}
+			}()
+			<-start
+			for r := 0; r < p.Reps; r++ {
+				copy(buf, x.in)
+				var v knxnet.Service
+				n, err := knxnet.Unpack(buf, &v)
+				if (err == nil) != x.ok || (err == nil && (n != x.n || !reflect.DeepEqual(v, x.val))) {
+					fails[i] = common.Failf("decode-interference", "round %d: knxnet.Unpack of %x gives (n=%d, err=%v) %s while %d other goroutines decode their own datagrams; alone it gives (n=%d, accepted=%v) %s",
+						r, x.in, n, err, common.Show(v), len(ss)-1, x.n, x.ok, x.show)
+					return
+				}
+			}
+		}(i)
+	}
+	close(start)
+	wg.Wait()
+	for _, f := range fails {
+		if f != nil {
+			return f
+		}
+	}
+	return nil
 }
 
 type decodeOutcome struct {
@@ -126,6 +188,9 @@ func decodeIn(target string, buf []byte, n int) (out decodeOutcome) {
 
 // c01Run decodes the input in four buffer contexts and applies the C01 oracle.
 func c01Run(p decodePlan) *common.Fail {
+	if len(p.Storm) > 0 {
+		return c01Storm(p)
+	}
 	in, err := hex.DecodeString(p.Hex)
 	if err != nil {
 		return nil
@@ -227,6 +292,24 @@ func genDIBs(rt *rapid.T) []common.RDIB {
 
 // genDecodePlan derives one input constructively from a valid frame.
 func genDecodePlan(rt *rapid.T) decodePlan {
+	if rapid.IntRange(0, 199).Draw(rt, "storm") == 0 {
+		// well-formed frames (mostly those with text fields and description blocks), decoded concurrently
+		p := decodePlan{Target: "knxnet.Unpack", Origin: "storm", Reps: rapid.SampledFrom([]int{30, 100}).Draw(rt, "storm-reps")}
+		for i := 0; i < rapid.IntRange(2, 8).Draw(rt, "storm-frames"); i++ {
+			kind := rapid.SampledFrom([]string{"searchres", "descrres", "descrres", "tunnelreq", "routingind", "connres-ok"}).Draw(rt, "storm-kind")
+			ck := ""
+			if common.CarriesCemi(kind) {
+				ck = rapid.SampledFrom(common.CemiKinds).Draw(rt, "storm-cemikind")
+			}
+			b, _ := common.RefEncode(common.GenFrame(rt, kind, ck))
+			if i == 0 {
+				p.Hex = hex.EncodeToString(b)
+			} else {
+				p.Storm = append(p.Storm, hex.EncodeToString(b))
+			}
+		}
+		return p
+	}
 	var kind string
 	switch rapid.IntRange(0, 9).Draw(rt, "kindclass") {
 	case 0, 1, 2, 3:
